@@ -47,7 +47,7 @@ FIX = "import pytest\n\n@pytest.fixture\ndef %s():\n    return 1\n"
 
 def gen_scenario(rng, i):
     sc = conc.Scenario("s%d" % i)
-    kind = ["lastdef", "reanalyze", "scan", "editscan", "reanalyze3", "reanalyze", "scan3", "lastdef2"][i % 8]
+    kind = ["lastdef", "reanalyze", "scan", "editscan", "reanalyze3", "reanalyze", "scan3", "lastdef2", "window"][i % 9]
     files = ["test_a.py", "test_b.py", "conftest.py"]
     sc.meta["kind"] = kind
     if kind == "lastdef":
@@ -57,6 +57,14 @@ def gen_scenario(rng, i):
         for f, t in (("test_a.py", a1), ("test_b.py", b1)):
             sc.disk.append((f, sc.text(t))); sc.setup.append(["analyze", f, sc.text(t)])
         sc.threads = {1: [["analyze", "test_a.py", sc.text(a2)]], 2: [["analyze", "test_b.py", sc.text(b2)]]}
+    elif kind == "window":
+        # the provider of `baz` is re-analysed (its definition is removed and registered again) while a
+        # test module whose body uses `baz` without declaring it is analysed
+        c1, c2 = FIX % "baz", FIX % "baz" + "\n@pytest.fixture\ndef extra():\n    return 2\n"
+        t1, t2 = "def test_b():\n    pass\n", "def test_b():\n    baz\n"
+        for f, t in (("conftest.py", c1), ("test_b.py", t1)):
+            sc.disk.append((f, sc.text(t))); sc.setup.append(["analyze", f, sc.text(t)])
+        sc.threads = {1: [["analyze", "conftest.py", sc.text(c2)]], 2: [["analyze", "test_b.py", sc.text(t2)]]}
     elif kind == "lastdef2":
         # the same window on the usage index: A's only usage of bar goes away while B starts using bar
         a1, a2 = "def test_a(bar):\n    pass\n", "def test_a():\n    pass\n"
@@ -96,17 +104,17 @@ def schedules(rng, steps, tier, nthreads):
         for i in range(0, steps[a] + 1):
             for j in range(1, steps[b] + 1):
                 two.append("run script %d:%d,%d:%d,%d:9999" % (a, i, b, j, a))
-    cap = 250 if tier == "quick" else 20000
+    cap = 250 if tier == "quick" else 2000
     if len(two) > cap:
         two = rng.sample(two, cap)
     out += two
-    nr = 60 if tier == "quick" else 1500
+    nr = 60 if tier == "quick" else 500
     for _ in range(nr):
         out.append("run rand %d %d" % (rng.randrange(1 << 30), rng.choice([150, 300, 500, 800])))
     if tier != "quick":
         three = []
         for a, b in itertools.permutations(tids, 2):
-            for _ in range(1500):
+            for _ in range(300):
                 i, j, k = rng.randrange(steps[a] + 1), rng.randrange(1, steps[b] + 1), rng.randrange(1, steps[a] + 1)
                 three.append("run script %d:%d,%d:%d,%d:%d,%d:9999" % (a, i, b, j, a, i + k, b))
         out += three
@@ -122,7 +130,7 @@ def run(tier, seed):
         r.broken.append("cargo build of the concurrency harness (instrumented dashmap) failed: " + log[-400:])
         return r.finish(RULE)
     v = r.verdict
-    nsc = 8 if tier == "quick" else 48
+    nsc = 9 if tier == "quick" else 54
     scs = [gen_scenario(r.rng, i) for i in range(nsc)]
     # pass 1: sequential orders, the state before, and the operation program of every worker alone
     for sc in scs:
